@@ -11,19 +11,19 @@ CLAIMS = {
     "C01": (
         "other",
         "def-use classification of every schedule-dependent observation (taint-style non-interference) over MIR; who-may-call; shared reader laws",
-        "Decides clause (ii) of the decomposition: every use of buf_len / buf / buf_ptr / is_at_end outside the reader has a sanctioned shape (fast/cold selector comparison, prefix slice up to a looked-at offset, use after the source was exhausted, end test after a look-ahead at offset 0); parser code calls no schedule-exposing reader method; Interrupted is retried inside request_more without touching state; position and mark are conserved by refills (C02 laws, re-run here). That the fast and cold implementations compute the same function is C13 / value-level; faithfulness of the window is C02. R5 (shared with C13-R3/R4): the byte-wise scanners' exact behaviour and the fast-path hand-over, since input that arrives in pieces takes the byte-wise path.",
+        "Decides clause (ii) of the decomposition: every use of buf_len / buf / buf_ptr / is_at_end outside the reader has a sanctioned shape (fast/cold selector comparison, prefix slice up to a looked-at offset, use after the source was exhausted, end test after a look-ahead at offset 0); parser code calls no schedule-exposing reader method; Interrupted is retried inside request_more without touching state; position and mark are conserved by refills (C02 laws, re-run here). That the fast and cold implementations compute the same function is C13 / value-level; faithfulness of the window is C02. R5 (shared with C13-R3/R4): the byte-wise scanners' exact behaviour and the fast-path hand-over, since input that arrives in pieces takes the byte-wise path. R6: the byte-wise keyword scan is a prefix scan like the word kernel - on its iteration graph, after an iteration that recorded no letter no later one can record one (the stop flag is followed as a constant through the variables the closure captured).",
         "DESIGN.md §4 C01",
     ),
     "C02": (
         "other",
         "affine symbolic path execution over MIR (Karr-style linear equalities, no solver), guard dominance, field-store inventory",
-        "Decides that every reader method that writes a bookkeeping field preserves the laws the operation histories compose: position/mark conservation (advance by +n only; request_more and realignment leave both unchanged), window moved with exactly its bytes to offset 0, read results appended at the window end into a slice of exactly chunk_size behind n <= chunk_size, shrink keeps the window, complete/io_error set exactly on Ok(0)/non-Interrupted Err, from_buf_reader chains buffered bytes first. Content equality as such and std's Vec/slice semantics are trusted, not decided. R7: every observer (request_byte_at_offset, its cold path, buf, buf_ptr) indexes the buffer with the cursor as it is at that moment, also after a refill inside the same call. R8 (shared with C09-R1): requests fall short only at the end of the source or on an error (single read site, Interrupted retried in place).",
+        "Decides that every reader method that writes a bookkeeping field preserves the laws the operation histories compose: position/mark conservation (advance by +n only; request_more and realignment leave both unchanged), window moved with exactly its bytes to offset 0, read results appended at the window end into a slice of exactly chunk_size behind n <= chunk_size, shrink keeps the window, complete/io_error set exactly on Ok(0)/non-Interrupted Err, from_buf_reader chains buffered bytes first. Content equality as such and std's Vec/slice semantics are trusted, not decided. R7: every observer (request_byte_at_offset, its cold path, buf, buf_ptr) indexes the buffer with the cursor as it is at that moment, also after a refill inside the same call. R8 (shared with C09-R1): requests fall short only at the end of the source or on an error (single read site, Interrupted retried in place). R4 also: the buffer is changed (length or contents) in request_more only - a mutable borrow of `buf` elsewhere may only feed len/capacity/reserve/shrink_to_fit.",
         "DESIGN.md §4 C02",
     ),
     "C03": (
         "other",
         "constant-table extraction from MIR (variant->constant matches, string-match chains, closure capture resolution) and writer/reader table comparison",
-        "Round-trip equality of arbitrary values is value-level and not decided. Decided is the necessary clause that the writer's and the reader's tables agree: the BTOR2 keyword relation is the same bijection on both sides and covers all 70 variants (incl. the token translation tables), the constant validators accept exactly the scanners' character classes, AIGER symbol prefixes/targets/index limits agree in both files, the varint reader accepts every length the writer emits, header field order and optional tail, latch reset forms, DIMACS framing words. R2 is position-sensitive where the validator is a chars() loop: the validator's automaton (with its boolean flag states) must be included in the language the scanner consumes. R4b: the varint writer's continuation-bit protocol.",
+        "Round-trip equality of arbitrary values is value-level and not decided. Decided is the necessary clause that the writer's and the reader's tables agree: the BTOR2 keyword relation is the same bijection on both sides and covers all 70 variants (incl. the token translation tables), the constant validators accept exactly the scanners' character classes, AIGER symbol prefixes/targets/index limits agree in both files, the varint reader accepts every length the writer emits, header field order and optional tail, latch reset forms, DIMACS framing words. R2 is position-sensitive where the validator is a chars() loop: the validator's automaton (with its boolean flag states) must be included in the language the scanner consumes. R4b: the varint writer's continuation-bit protocol. R10: free text (symbol names, comments, constants) is handed out verbatim - identity conversions only on what advance_with_buf returns, and only the terminator byte is cut off.",
         "DESIGN.md §4 C03",
     ),
     "C04": (
@@ -35,7 +35,7 @@ CLAIMS = {
     "C05": (
         "other",
         "instance call-graph SCC analysis; taint analysis of declared numbers with guard-dominance discharge; allocation-size taint; loop progress rule; panic-site inventory with discharge classes",
-        "Decides: the workspace's instance call graph is acyclic (bounded stack); every overflow/division assert and every subtraction in parser-reachable code either has only measures of consumed input as operands or is discharged by a dominating guard, a bounded-result callee, or a listed bound; no allocation is sized by a declared number; every loop has a progress statement on every cycle; every panic-capable construct (unwrap, indexing, advance, explicit panic) is discharged by a class (scanned offsets, digits, pop-after-push, ...) or listed. Wall time, heap constants, allocator aborts and termination of Renumber::transfer on cyclic graphs are not decided. R7: a token function reports a match only after the cursor moved by a provably positive amount, so the parsers' loops over alternatives cannot spin.",
+        "Decides: the workspace's instance call graph is acyclic (bounded stack); every overflow/division assert and every subtraction in parser-reachable code either has only measures of consumed input as operands or is discharged by a dominating guard, a bounded-result callee, or a listed bound; no allocation is sized by a declared number; every loop has a progress statement on every cycle; every panic-capable construct (unwrap, indexing, advance, explicit panic) is discharged by a class (scanned offsets, digits, pop-after-push, ...) or listed. Wall time, heap constants, allocator aborts and termination of Renumber::transfer on cyclic graphs are not decided. R7: a token function reports a match only after the cursor moved by a provably positive amount, so the parsers' loops over alternatives cannot spin. R2 also enumerates the integer methods of std that trap like the operators (abs, pow, neg, ...): none takes a declared number.",
         "DESIGN.md §4 C05",
     ),
     "C06": (
@@ -47,13 +47,13 @@ CLAIMS = {
     "C07": (
         "other",
         "interprocedural typestate analysis over MIR (blank-normal form of the cursor, path-sensitive abstract interpretation with summaries); exact byte-class extraction for the end-of-word test; CFG loop / dominance rules and sibling cross-check for the statement dispatch",
-        "Equality of the values parsed from two renderings of one formula is a runtime relation and is not decided. Decided are the structural necessary conditions the layout freedoms rest on: (1) on every path from every cnf/wcnf/gcnf/solver-log entry point, a token parser that decides on the byte at the cursor is attempted only when the cursor cannot stand on a space or tab (everything consumed was consumed together with its trailing blanks, or skip_whitespace ran) - any amount of blanks between tokens, at line ends and at line starts; (2) a word ends exactly before space, tab, CR, LF or end of input; (3) in all three statement loops and header prologues comment lines and blank lines are alternatives whose success continues the loop, identically in the three siblings; (4) every required line end is `newline or end of input`; (5) inside a clause, and between weight/group and literals, the line-break-and-comments skipper is tried before an error is raised, and it loops over comments and newlines. LF/CRLF is text::newline's class (C16-R3); numeral spelling (leading zeros, -0) is value-level (C13).",
+        "Equality of the values parsed from two renderings of one formula is a runtime relation and is not decided. Decided are the structural necessary conditions the layout freedoms rest on: (1) on every path from every cnf/wcnf/gcnf/solver-log entry point, a token parser that decides on the byte at the cursor is attempted only when the cursor cannot stand on a space or tab (everything consumed was consumed together with its trailing blanks, or skip_whitespace ran) - any amount of blanks between tokens, at line ends and at line starts; (2) a word ends exactly before space, tab, CR, LF or end of input; (3) in all three statement loops and header prologues comment lines and blank lines are alternatives whose success continues the loop, identically in the three siblings; (4) every required line end is `newline or end of input`; (5) inside a clause, and between weight/group and literals, the line-break-and-comments skipper is tried before an error is raised, and it loops over comments and newlines. LF/CRLF is text::newline's class (C16-R3); numeral spelling (leading zeros, -0) is value-level (C13). R7: a scan that starts at a constant offset K > 0 steps over examined bytes only - each matched against a byte other than a line feed on the way, nothing consumed in between.",
         "DESIGN.md §13",
     ),
     "C08": (
         "other",
         "interprocedural typestate analysis (mark set/unset) plus per-function path rules with affine offset matching over MIR",
-        "Decides how the three pieces of location state are maintained on every path to an error: mark() only after set_mark() on the current line (all API roots, all call paths), line_start never ahead of the cursor when an error can be raised or a token returns, every matched-and-consumed line feed is counted, errors raised only at the cursor or the mark, column formula. It does not decide that the column lies on the token for errors raised at the cursor after partial look-ahead, nor message text. R3 also: a whole line skipped with next_newline is counted with the same offset, and the line start is only set after the cursor moved when it moved by exactly the line feed.",
+        "Decides how the three pieces of location state are maintained on every path to an error: mark() only after set_mark() on the current line (all API roots, all call paths), line_start never ahead of the cursor when an error can be raised or a token returns, every matched-and-consumed line feed is counted, errors raised only at the cursor or the mark, column formula. It does not decide that the column lies on the token for errors raised at the cursor after partial look-ahead, nor message text. R3 also: a whole line skipped with next_newline is counted with the same offset, and the line start is only set after the cursor moved when it moved by exactly the line feed. R6: a token whose error is located by its caller (error type other than ParseError) commits the error with the cursor still on the token (typestate: no advance on a path returning Res(Err)).",
         "DESIGN.md §4 C08",
     ),
     "C09": (
@@ -65,7 +65,7 @@ CLAIMS = {
     "C10": (
         "other",
         "dominance rules over MIR (buffer reset discipline on the def-level call graph; guard extraction on the reader's compaction code); interprocedural typestate analysis (line ends looked at beyond the cursor)",
-        "The heap bound itself is a runtime quantity and is not decided. Decided are necessary structural conditions: every growth of a buffer that outlives the call, in code reachable from a streaming parser entry point, is dominated by a clear() of the same buffer; compaction in request_more is decided on live operands, moves the window to offset 0 and the buffer only grows when window + chunk does not fit. (Allocation sized by declared counts is C05-R5.) Also decided (R3, typestate over all token functions and streaming entry points): no second line end is looked at before the cursor moved past the first, so the look-ahead window - which the reader must keep - stays within one line (plus the AIGER comment section, one item by definition). R4 (shared with C05-R5): no allocation or reservation sized by a declared number.",
+        "The heap bound itself is a runtime quantity and is not decided. Decided are necessary structural conditions: every growth of a buffer that outlives the call, in code reachable from a streaming parser entry point, is dominated by a clear() of the same buffer; compaction in request_more is decided on live operands, moves the window to offset 0 and the buffer only grows when window + chunk does not fit. (Allocation sized by declared counts is C05-R5.) Also decided (R3, typestate over all token functions and streaming entry points): no second line end is looked at before the cursor moved past the first, so the look-ahead window - which the reader must keep - stays within one line (plus the AIGER comment section, one item by definition). R4 (shared with C05-R5): no allocation or reservation sized by a declared number. R1 treats every growing method of every std collection alike (push/insert/extend/entry/... on Vec, String, VecDeque, HashMap, HashSet, BTree*).",
         "DESIGN.md §4 C10",
     ),
     "C11": (
@@ -77,13 +77,13 @@ CLAIMS = {
     "C12": (
         "other",
         "call-graph SCC check, def-use provenance of map keys vs. redefinition tests (sibling agreement), guard/dominance and expression-shape rules over MIR",
-        "Functional equivalence of the renumbered circuit (all circuits, all assignments, all option combinations) is value-level and NOT decided; neither are the const-fold case analysis, hash-consing or completeness of the cycle detection. Decided structural necessary conditions: no recursion (explicit stack), every kind of literal used as a key of the renumbering map passes a redefinition test yielding LitAlreadyDefined, every error variant has a producer on the right path and is propagated with `?`, inputs sorted (descending) before a gate is hashed or pushed, a fresh code before every pushed gate, inputs < latches < gates numbering order, LitMap/transfer polarity xor discipline. R5/R6 additionally decide that the literal handed back from the gate arm is the stored literal xor the polarity difference, and that every constant fold is an identity of AND on every decision path (conditions evaluated over the six representative codes). R7: source-circuit literals and renumbered literals (same type) are never compared or used in each other's place (flow-sensitive numbering tags).",
+        "Functional equivalence of the renumbered circuit (all circuits, all assignments, all option combinations) is value-level and NOT decided; neither are the const-fold case analysis, hash-consing or completeness of the cycle detection. Decided structural necessary conditions: no recursion (explicit stack), every kind of literal used as a key of the renumbering map passes a redefinition test yielding LitAlreadyDefined, every error variant has a producer on the right path and is propagated with `?`, inputs sorted (descending) before a gate is hashed or pushed, a fresh code before every pushed gate, inputs < latches < gates numbering order, LitMap/transfer polarity xor discipline. R5/R6 additionally decide that the literal handed back from the gate arm is the stored literal xor the polarity difference, and that every constant fold is an identity of AND on every decision path (conditions evaluated over the six representative codes). R7: source-circuit literals and renumbered literals (same type) are never compared or used in each other's place (flow-sensitive numbering tags). R8: the definition table is keyed by literals as written and every question to it covers both polarities (key-expression classes: plain / flipped / normalised).",
         "DESIGN.md §4 C12",
     ),
     "C13": (
         "other",
         "def-use discipline rules over MIR, sibling comparison of loop bodies, exhaustive abstract interpretation of the scanning behaviour over (offset label, byte class)",
-        "The numeric value of the SWAR kernel and of the accumulation loops is value-level and not decided. Decided: every overflowing_* flag reaches the one flag gating the returned Option and no other arithmetic touches the value; the five accumulation steps agree (x10, +/- (byte - '0')); the simple scanners' behaviour (digit class, +1 per digit, a lone minus is not passed over) equals the specification exactly for entry offsets 0 and 1; the fast/cold plumbing (cold tail calls, all-matched constants 8/7, continuation at offset+8, checked conversions, sign counted only if a digit followed). R1b: None is returned exactly on the paths where an overflowing_* step reported overflow or None came in, decided as a typestate independent of how the flag is stored. R5: the SWAR kernel's digit test is interpreted lane by lane (tables over all 256 byte values per lane, additions proved carry-free between lanes): a lane is zero exactly for '0'..='9'; only the multiply-and-shift reduction is assumed.",
+        "The numeric value of the SWAR kernel and of the accumulation loops is value-level and not decided. Decided: every overflowing_* flag reaches the one flag gating the returned Option and no other arithmetic touches the value; the five accumulation steps agree (x10, +/- (byte - '0')); the simple scanners' behaviour (digit class, +1 per digit, a lone minus is not passed over) equals the specification exactly for entry offsets 0 and 1; the fast/cold plumbing (cold tail calls, all-matched constants 8/7, continuation at offset+8, checked conversions, sign counted only if a digit followed). R1b: None is returned exactly on the paths where an overflowing_* step reported overflow or None came in, decided as a typestate independent of how the flag is stored. R5: the SWAR kernel's digit test is interpreted lane by lane (tables over all 256 byte values per lane, additions proved carry-free between lanes): a lane is zero exactly for '0'..='9'; only the multiply-and-shift reduction is assumed. R4 also: a fast variant returns without the byte-wise continuation only behind the test that fewer than 8 (7 after a minus) digit bytes of the word matched - what is or is not buffered behind the word never ends a number.",
         "DESIGN.md §4 C13",
     ),
     "C14": (
@@ -101,7 +101,7 @@ CLAIMS = {
     "C16": (
         "proof",
         "exhaustive abstract interpretation of MIR over (offset label, byte class), behaviour transition systems compared with generated specifications; call-graph effect confinement",
-        "For tabs_or_spaces, newline, next_newline and fixed the transition system (look-ahead offset, 256-bit byte class incl. end-of-input on every edge, returned offset) is extracted from MIR for entry offsets 0 and 1 (patterns '', 'a', 'ab', 'aa' for fixed) and must equal the documented behaviour exactly, including the absence of any look-ahead the documentation does not require; plus who-may-call confinement (no advance/mark/line effects reachable). Offsets above 3 are tracked as a lower bound only.",
+        "For tabs_or_spaces, newline, next_newline and fixed the transition system (look-ahead offset, 256-bit byte class incl. end-of-input on every edge, returned offset) is extracted from MIR for entry offsets 0 and 1 (patterns '', 'a', 'ab', 'aa' for fixed) and must equal the documented behaviour exactly, including the absence of any look-ahead the documentation does not require; plus who-may-call confinement (no advance/mark/line effects reachable). Offsets above 3 are tracked as a lower bound only. R6 (shared with C02-R3/R4/R7): the look-ahead primitive the helpers see the input through answers from a faithful window (reads appended at the window end, shrinking keeps the window, observers index at the current cursor).",
         "DESIGN.md §4 C16",
     ),
 }
